@@ -147,7 +147,7 @@ ROOT_TAGS = ("config", "cfg", "a", "Config")
 
 @obligation(prop="C04", sites=("same", "wrong"), stubs=("XML text layer = identity on Element",),
             encodes=["cincoconfig.formats.xml.XmlConfigFormat.dumps", "cincoconfig.formats.xml.XmlConfigFormat.loads"],
-            budget={"quick": 120, "thorough": 300},
+            budget={"quick": 300, "thorough": 600},
             what="XML dumps/loads with the textual layer stubbed: a document dumped with root tag a loads with root "
                  "tag b iff a == b (else rejected), and returns the tree; the default tag and three others")
 def xml_root_tag(ai: int, bi: int, v: int, s: str) -> bool:
